@@ -1,21 +1,32 @@
 # C14 spec (see tools/props.py)
 SPEC = {
         "ready": True,
-        "sources": ["c14.cpp", "c14_f.cpp", "c14_d.cpp"],
+        "sources": ["c14.cpp", "c14_f.cpp", "c14_d.cpp", "c14_max_f.cpp", "c14_max_d.cpp", "c14_guard_f.cpp", "c14_guard_d.cpp"],
         "lib": [],
         "technique": "exhaustive enumeration of (box, origin, direction) over integer lattices and over a power-of-two boundary alphabet against an exact slab test "
-                     "(integers / cross-multiplied fractions, exact in long double on the power-of-two alphabet)",
+                     "(integers / cross-multiplied fractions, exact in long double on the power-of-two alphabet, "
+                     "in the numbers a*max+b for box faces at +-numeric max, in __int128 for the guard-boundary alphabet)",
         "level_text": "intersects(box,ray), intersects(box,ray,ip) and findEntryAndExitPoints are run on every box with (min,max) in {0..3} per axis (flat and inverted included), "
                       "every origin in {-1..4}^3 and every non-zero unnormalised direction in {-2..2}^3 (thorough: {0..4}, {-2..6}^3, {-3..3}^3), float and double, and on the extreme "
                       "alphabet of direction components {0, +-denorm_min, +-min, +-2^-100, +-1, +-2^100, +-max}; the truth value must equal the exact slab test, reported points must be in "
-                      "the box, on its surface (or equal to the origin when it is inside) and within 2*eps*M of the exact point.",
+                      "the box, on its surface (or equal to the origin when it is inside) and within 2*eps*M of the exact point. Added after the audit, same three entry points and checks, "
+                      "each under its own site suffix: (max-face) every box with per-axis (min,max) in {(-W,W),(1,W),(-W,1),(0,1),(W,-W),(W,W)} (thorough +(-1,1),(-W,-W),(1,-W)), W = numeric max - "
+                      "makeInfinite(), makeEmpty(), half spaces, slabs - x origins {-1,0,2}^3 x directions {-2..2}^3 (thorough {-3..3}^3); (signed) every (min,max) in {-2..1} per axis x origins "
+                      "{-3..2}^3 x directions {-1,0,1}^3 (thorough {-2..2}^3); (negzero) boxes/origins/directions over {-1,0,1} with every choice of zero components passed as -0.0; "
+                      "(guard) origin 0, faces E,E+1 (E = fl(max*3/4)), max-ulp, max (thorough also E-1, max-2ulp) and direction components 0,+-3/4,+-(1-eps/2),+-1,+-(1+eps) (thorough +-3/2): the "
+                      "operands of every overflow guard |face-origin| < max*|dir| are equal or one ulp apart.",
         "level_note": "Bounded scope: small-integer and power-of-two coordinates only. Cases of the extreme alphabet in which a slab parameter t underflows (0 < |t| < min) are outside the "
-                      "checked domain and are counted; cases in which a parameter exceeds the largest finite value are checked and reported under their own '.some-t-overflows' / "
+                      "checked domain and are counted, except those in which no underflowing parameter can be binding (tin >= min resp. tout <= -min, or a zero direction component already decides "
+                      "'miss'), which are judged under '.t-underflows-on-non-binding-axis' sites, and those with an exact hit and no parameter beyond max, for which only 'an exact hit is reported as a hit' is "
+                      "demanded (rounding is monotone; '.truth.t-underflows.exact-hit' sites); on the max-face and guard alphabets, cases whose exact truth value differs from that of the problem "
+                      "with correctly rounded differences face-origin (max-face) resp. correctly rounded parameters (guard) rest on a sub-ulp difference of two parameters and are counted, not judged; cases in which a parameter exceeds the largest finite value are checked and reported under their own '.some-t-overflows' / "
                       "'.every-t-overflows' sites.",
         "deadline": {"quick": 200, "thorough": 850},
         "rule": "exhaustive product of the box, origin and direction alphabets, 3 entry points, float and double; non-trivial = by the exact oracle on the input: box inverted or flat, "
                 "origin inside, hit from outside, box behind the origin (line hits, ray misses), single contact point (grazing edge/corner/face), a zero direction component, "
-                "a slab parameter beyond the largest finite value on some / on every axis ('miss.generic' excluded)",
+                "a slab parameter beyond the largest finite value on some / on every axis, the box is makeInfinite() / a half space or slab with a face at +-max / makeEmpty() / "
+                "empty with coordinates at max, a guard's operands are equal / one ulp apart, an exact parameter is max+1 or max+2, box coordinates all negative / straddling zero, a direction "
+                "component or a box/origin coordinate is -0.0, an underflowing parameter on a non-binding axis, an exact hit with an underflowing parameter ('miss.generic' excluded)",
         "assumptions": ["zero direction vectors are outside the property's domain and are excluded",
                         "long double has a 64-bit significand (x86-64): the power-of-two alphabet's cross products are exact"],
     }
